@@ -6,7 +6,7 @@ from . import common as K
 LEVEL = ("Static necessary conditions of reversibility, decided on the resolved program (HIR/MIR): fair and fresh "
          "direction draw per doubling, mirror symmetry of every direction-dependent construct, U-turn pair set closed "
          "under left/right mirroring with order normalisation, tree-weight writers and acceptance-branch inputs, "
-         "momentum refresh at trajectory start. Detailed balance itself (values of energies and probabilities) is not decided.")
+         "momentum refresh at trajectory start, symmetry f(a,b)=f(b,a) of the tree-weight merge function on its whole decision tree (R8). Detailed balance itself (values of energies and probabilities) is not decided.")
 EXPLANATION = ("Rules C01-R1..R6 evaluated on every matching site of the all-features build; each rule instance is a "
                "(rule, site) obligation. What is established: the structural clauses listed in level_text hold at every site; "
                "what is not: the Metropolis/multinomial formulas as numbers.")
@@ -470,7 +470,47 @@ def r7(F, R):
     R.floor("C01-R7", 2)
 
 
+def r8(F, R):
+    R.rule("C01-R8", "tree weights combine symmetrically: the function that merges the log-weights of two sub-trees (the callee whose result is stored into "
+                     "NutsTree.log_size in the merge) satisfies f(a, b) == f(b, a) on its whole decision tree - the weight of a trajectory must not depend on "
+                     "which half was built first")
+    from . import symm
+    from . import kernel as KN
+    TREE_ = "nuts::NutsTree"
+    merged = set()
+    for (wb, bb, st, v, how) in K.field_writers(F, TREE_, "log_size"):
+        for n in vt_walk(v):
+            if n[0] == "call" and len(n[2]) == 2:
+                tgt = n[3].get("resolved") or n[3].get("path")
+                if tgt in F.bodies:
+                    args = [vt_str(x) for x in n[2]]
+                    if all("log_size" in a for a in args):
+                        merged.add(tgt)
+    if not merged:
+        R.missing("C01-R8", "binary workspace function combining two log_size values")
+        return
+    for tgt in sorted(merged):
+        b = F.bodies[tgt]
+        pb = [(bid, nm) for (bid, nm) in K.param_bindings(b)]
+        site = "%s @%s" % (b.path, b.loc())
+        if len(pb) != 2 or not b.hir:
+            R.bad("C01-R8", tgt + ":shape", site, "weight-merge function does not have two simple parameters")
+            continue
+        ok_, t, l0, l1 = symm.check_symmetric(b.hir["value"], pb)
+        if ok_:
+            R.ok("C01-R8", tgt + ":symmetric", site, "%d leaves of the decision tree, invariant under exchanging %s and %s" % (len(l0), pb[0][1], pb[1][1]))
+        else:
+            only = sorted(l0 - l1, key=repr)[:2]
+            desc = []
+            for conds, val in t.leaves:
+                desc.append("[%s] -> %s" % (", ".join("%s in %s" % (KN.pshow(p_), "/".join(sorted(s_))) for p_, s_ in conds[-2:]), KN.pshow(val)))
+            R.bad("C01-R8", tgt + ":symmetric", site, "weight merge is not symmetric in its arguments (%d of %d leaves have no mirror image%s): e.g. %s" % (
+                len(l0 - l1), len(l0), "; notes: %s" % t.notes if t.notes else "", "; ".join(d for d in desc if True)[:400]))
+    R.floor("C01-R8", 1)
+
+
 def run(F, R, config="all"):
+    r8(F, R)
     r1(F, R)
     r2(F, R)
     r3(F, R)
